@@ -72,6 +72,8 @@ def cases(tier, seed):
         for k in range(1, S + 1):
             out.append({"key": f"submult/{m}x{k}x{n}", "grp": "sub", "m": m, "k": k, "n": n})
     out.append({"key": "ord_table", "grp": "ord"})
+    for (m, n) in ((0, 0), (0, 1), (1, 0), (0, 3), (3, 0)):
+        out.append({"key": f"empty/{m}x{n}", "grp": "empty", "m": m, "n": n})
     for (m, n) in ((24, 28), (30, 26), (40, 36), (2, 33), (33, 2)):
         out.append({"key": f"large/{m}x{n}", "grp": "large", "m": m, "n": n})
     for m, n in ((2, 2), (2, 3), (3, 2), (3, 3)):
@@ -265,8 +267,25 @@ def run_case(case, seed):
                     fails.append(fail("norm_raised", f"{nm}: {v}", fn=nm, grp=grp))
                 elif not abs(float(v) - exp) <= tol:
                     fails.append(fail("norm!=definition", f"{nm} = {float(v)!r}, definition gives {exp!r} ({grp} {m}x{n})", fn=nm, grp=grp))
+    elif grp == "empty":
+        # empty shapes: every norm is the norm of an empty sum / an empty maximum = 0.0 (all entry points agree)
+        m, n = case["m"], case["n"]
+        Aq = np.zeros((m, n), dtype=np.quaternion)
+        nontriv = 0
+        for nm, f in (("matrix_norm(None)", lambda: u.matrix_norm(Aq)), ("matrix_norm('fro')", lambda: u.matrix_norm(Aq, "fro")), ("matrix_norm(1)", lambda: u.matrix_norm(Aq, 1)),
+                      ("matrix_norm(inf)", lambda: u.matrix_norm(Aq, np.inf)), ("matrix_norm(2)", lambda: u.matrix_norm(Aq, 2)), ("induced_matrix_norm_1", lambda: u.induced_matrix_norm_1(Aq)),
+                      ("induced_matrix_norm_inf", lambda: u.induced_matrix_norm_inf(Aq)), ("spectral_norm_2", lambda: u.spectral_norm_2(Aq)), ("quat_frobenius_norm", lambda: u.quat_frobenius_norm(Aq)),
+                      ("normQ", lambda: u.normQ(Aq)), ("tensor_frobenius_norm", lambda: lib.tensor.tensor_frobenius_norm(Aq))):
+            ok, v = call(f)
+            evals += 1
+            if not ok:
+                fails.append(fail("norm_raised", f"{nm} on an empty {m}x{n} matrix: {type(v).__name__}: {v}", fn=nm, grp="empty"))
+            elif float(v) != 0.0:
+                fails.append(fail("norm!=definition", f"{nm} on an empty {m}x{n} matrix = {float(v)!r}", fn=nm, grp="empty"))
     else:
-        A = mat(np.array([[5, 6, 1], [2, 9, 3]])).astype(float)  # 2x3, non-symmetric moduli
+      shapes_ = {"2x3": np.array([[5, 6, 1], [2, 9, 3]]), "1x3": np.array([[5, 6, 2]]), "3x1": np.array([[5], [6], [2]]), "1x1": np.array([[9]]), "2x2": np.array([[5, 6], [2, 9]])}
+      for shp_name, idx_ in shapes_.items():
+        A = mat(idx_).astype(float)  # non-symmetric moduli; row / column vectors and 1x1 included
         Aq = G.to_quat(A)
         nontriv = 1
         good = {"None": None, "'fro'": "fro", "'F'": "F", "1": 1, "2": 2, "np.inf": np.inf, "'inf'": "inf", "1.0": 1.0, "2.0": 2.0, "float('inf')": float("inf"),
@@ -279,16 +298,16 @@ def run_case(case, seed):
             ok, v = call(u.matrix_norm, Aq, o)
             evals += 1
             if not ok:
-                fails.append(fail("valid_ord_rejected", f"ord={nm}: {v}", ord=nm, grp="ord"))
+                fails.append(fail("valid_ord_rejected", f"ord={nm} on {shp_name}: {v}", ord=nm, shape=shp_name, grp="ord"))
             elif abs(float(v) - expect[kind_of[nm]]) > 1e-12 * expect[kind_of[nm]]:
-                fails.append(fail("ord_spelling_selects_wrong_norm", f"ord={nm}: {float(v)!r}, the {kind_of[nm]}-norm is {expect[kind_of[nm]]!r}", ord=nm, grp="ord"))
+                fails.append(fail("ord_spelling_selects_wrong_norm", f"ord={nm}: {float(v)!r}, the {kind_of[nm]}-norm is {expect[kind_of[nm]]!r}", ord=nm, shape=shp_name, grp="ord"))
         bad = {"'nuc'": "nuc", "0": 0, "-1": -1, "3": 3, "'Fro'": "Fro", "'2'": "2", "-np.inf": -np.inf, "'f'": "f", "'1'": "1", "-2": -2, "1.5": 1.5,
                "[1]": [1], "(1, 2)": (1, 2), "b'fro'": b"fro", "{}": {}, "np.int64(3)": np.int64(3), "'frobenius'": "frobenius", "'Inf'": "Inf"}
         for nm, o in bad.items():
             ok, v = call(u.matrix_norm, Aq, o)
             evals += 1
             if ok:
-                fails.append(fail("unknown_ord_accepted", f"ord={nm} returned {v!r}", ord=nm, grp="ord"))
+                fails.append(fail("unknown_ord_accepted", f"ord={nm} on {shp_name} returned {v!r}", ord=nm, shape=shp_name, grp="ord"))
     return {
         "key": case["key"],
         "fails": fails[:40],
